@@ -21,7 +21,7 @@ from evidence import Outcome
 
 def builtin_table(out):
     tgt = os.path.join(build.WORK, "tgt", "builtins")
-    p = build.cargo_build(os.path.join(build.RUST, "builtins"), tgt, rustflags=build.HOOK_FLAGS)
+    p = build.cargo_build(os.path.join(build.rust_dir(), "builtins"), tgt, rustflags=build.HOOK_FLAGS)
     if p.returncode != 0:
         raise RuntimeError("builtins harness build failed:\n" + p.stdout[-3000:])
     pr = subprocess.run([os.path.join(tgt, "debug", "vfbuiltins")], stdout=subprocess.PIPE, stderr=subprocess.DEVNULL, env=build.BASE_ENV, timeout=600)
